@@ -10,6 +10,18 @@ import (
 	"github.com/pkg/errors"
 )
 
+// bitsAreValid returns false for header target bits that can't be converted to a difficulty.
+// bitcoin.ConvertToDifficulty panics (index out of range) when the encoded number is one byte
+// long: a length byte of one, or of two with a zero leading mantissa byte.
+func bitsAreValid(bits uint32) bool {
+	length := uint8((bits >> 24) & 0xff)
+	if (bits & 0x00ff0000) == 0 {
+		length--
+	}
+
+	return length != 1
+}
+
 func (b Branch) Target(ctx context.Context, height int) (*big.Int, error) {
 
 	// NOTE: Assume 2017 difficulty adjustment is active --ce
